@@ -158,9 +158,16 @@ class Ledger:
 
     def _writer_side(self, pay_term):
         b = self.b
+        def from_next(t):
+            return any(o[0] == 'call' and U.callee_name(b.term(o[1])) == 'next' for o in b.origins(t['args'][0]))
         for o in b.origins(pay_term['args'][0]):
             if o[0] == 'call' and U.callee_name(b.term(o[1])) == 'next':
                 return True
+            if o[0] == 'call' and U.callee_name(b.term(o[1])) in ('helping_slot', 'fast_slots') and b.term(o[1])['callee'].get('krate') == 'arc_swap':
+                # a split walk: `for s in node.fast_slots() { pay(s) }; pay(node.helping_slot())` — the direct pay belongs to
+                # the same writer-side walk when the body also pays slots yielded by an iterator
+                if any(U.callee_name(t) == 'pay' and 'debt::Debt' in t['callee'].get('path', '') and from_next(t) for _, t in b.calls(include_cleanup=False)):
+                    return True
             if o[0] == 'arg' and b.kind == 'Closure':
                 # the slot is the item of an internal iteration (`.for_each(|slot| ..)`) in the parent
                 parent = self.fx.lib.by_key.get(b.j.get('parent'))
